@@ -401,6 +401,26 @@ def run_check(prop, tier, rule_fn, replay=None):
         _write_error_evidence(evidence_path, prop, tier, seed, tb[-2000:], time.time() - t0)
         return 2
 
+    # thorough tier: armed-rule self-check (evidence only, never a VIOLATION) ------
+    selfcheck = None
+    if tier == "thorough" and not os.environ.get("VSA_NO_SELFCHECK"):
+        try:
+            from . import selftest
+            sc = selftest.run_all(prop)
+            selfcheck = {
+                "operators": len(sc),
+                "armed_instances": sum(1 for r in sc if r["status"] == "fired"),
+                "selftest_skipped": [r["op"] + ": " + r.get("reason", "") for r in sc if r["status"] == "skipped"],
+                "selftest_missed": [r for r in sc if r["status"] == "missed"],
+                "fired": [{"op": r["op"], "finding": r.get("finding", "")[:160]} for r in sc if r["status"] == "fired"],
+                "clean_copy_exit": selftest.run_clean(prop),
+            }
+            for r in selfcheck["selftest_missed"]:
+                print(f"SELF-CHECK-MISSED property={prop} operator={r['op']}: the seeded fault was not reported "
+                      f"(exit {r.get('exit')}); this is a weakness of the checker, not a violation of the property")
+        except Exception:
+            selfcheck = {"error": traceback.format_exc()[-800:]}
+
     # triage + known findings ------------------------------------------------
     table = triage_table()
     kf = known_findings()
@@ -459,6 +479,7 @@ def run_check(prop, tier, rule_fn, replay=None):
             "repo_digest": repo.digest(),
             "repo_root": repo.root,
             "notes": res.notes,
+            "self_check": selfcheck,
         },
         "assumptions": res.assumptions,
         "wall_s": round(time.time() - t0, 3),
@@ -466,8 +487,13 @@ def run_check(prop, tier, rule_fn, replay=None):
     }
     with open(evidence_path, "w") as fh:
         json.dump(ev, fh, indent=1, default=str)
+    extra = ""
+    if selfcheck and "operators" in selfcheck:
+        extra = (f"; self-check: {selfcheck['armed_instances']}/{selfcheck['operators']} seeded faults reported, "
+                 f"{len(selfcheck['selftest_skipped'])} skipped, {len(selfcheck['selftest_missed'])} missed, "
+                 f"clean copy exit {selfcheck['clean_copy_exit']}")
     print(f"{prop} {tier}: {n_obl} obligations, {n_dis} discharged, {len(knowns)} known finding(s), "
-          f"{len(triaged)} triaged, {len(violations)} violation(s), {ev['wall_s']} s")
+          f"{len(triaged)} triaged, {len(violations)} violation(s), {ev['wall_s']} s{extra}")
     return 1 if violations else 0
 
 
